@@ -547,3 +547,75 @@ Proof.
       rewrite (Na Ht n0 (fx R_RPAR :: rest)) in H. discriminate.
     + apply FP_of_PP; auto.
 Qed.
+
+(* ------------------------------------------------------------------ completeness: clauses, directives, programs *)
+
+Definition cclauseb (c : cclause) : bool :=
+  match c with C_fact h => csimple h | C_rule h b => csimple h && cpb b end.
+Definition ccordb (c : cord) : bool :=
+  match c with CD_clause c => cclauseb c | CD_directive sp => csimple sp end.
+Definition canonical (p : cprogram) : bool := forallb ccordb p.
+
+Lemma y_simple_is_k k sp X : tstart k = false -> k <> R_TRUE -> k <> R_FAIL -> k <> R_CUT ->
+  is_k k (y_simple sp ++ X) = false.
+Proof.
+  intros Hk H1 H2 H3. destruct sp; cbn [y_simple app]; unfold fx; try (apply is_k_diff; assumption).
+  apply y_term_is_k; exact Hk.
+Qed.
+
+Lemma y_simple_cons sp : exists t0 r0, y_simple sp = t0 :: r0.
+Proof.
+  destruct sp; cbn [y_simple]; unfold fx; eauto. destruct (y_term_hd t) as [k [x [more [-> _]]]]. eauto.
+Qed.
+
+Lemma cord_complete c : ccordb c = true -> forall rest, ev (fun n => p_cord n (y_cord c ++ rest)) (c, rest).
+Proof.
+  intros C rest. destruct c as [[h|h b]|sp]; cbn [ccordb cclauseb] in C.
+  - destruct (simple_complete h C (fx R_DOT :: rest) eq_refl) as [n1 H1].
+    exists n1. intros n Hn. unfold p_cord. cbn [y_cord y_clause]. nrm.
+    rewrite y_simple_is_k by (try reflexivity; discriminate). rewrite H1 by lia.
+    unfold fx. rewrite is_k_same. reflexivity.
+  - apply andb_true_iff in C as [Ch Cb].
+    destruct (simple_complete h Ch (fx R_NECK :: y_pe b ++ fx R_DOT :: rest) eq_refl) as [n1 H1].
+    destruct (pe_complete b Cb) as [_ [Lb _]].
+    destruct (LL_full b Lb (fx R_DOT :: rest) eq_refl eq_refl 0 ltac:(lia)) as [n2 H2].
+    exists (n1 + n2). intros n Hn. unfold p_cord. cbn [y_cord y_clause]. nrm.
+    rewrite y_simple_is_k by (try reflexivity; discriminate). rewrite H1 by lia.
+    unfold fx in *. rewrite is_k_diff by discriminate. rewrite expect_same. rewrite H2 by lia.
+    rewrite expect_same. reflexivity.
+  - destruct (simple_complete sp C (fx R_DOT :: rest) eq_refl) as [n1 H1].
+    exists n1. intros n Hn. unfold p_cord. cbn [y_cord]. nrm. unfold fx at 1. rewrite is_k_same. cbn [tl].
+    rewrite H1 by lia. unfold fx. rewrite expect_same. reflexivity.
+Qed.
+
+Lemma y_cord_cons c : exists t0 r0, y_cord c = t0 :: r0.
+Proof.
+  destruct c as [[h|h b]|sp]; cbn [y_cord y_clause]; unfold fx; eauto;
+    destruct (y_simple_cons h) as [t0 [r0 ->]]; simpl; eauto.
+Qed.
+
+(* PROGRAM_COMPLETE: for a canonical derivation tree, and every fuel from some point on, parsing its yield
+   returns exactly that tree (m = the bound on the number of clauses, n = the depth fuel) *)
+Theorem program_complete prog : canonical prog = true -> forall m, length prog <= m ->
+  ev (fun n => p_program m n (yield prog)) prog.
+Proof.
+  unfold canonical. induction prog as [|c l IH]; intros C m Hm.
+  - exists 0. intros n _. destruct m; reflexivity.
+  - cbn [forallb] in C. apply andb_true_iff in C as [Cc Cl].
+    destruct m as [|m]; [simpl in Hm; lia|].
+    destruct (IH Cl m ltac:(simpl in Hm; lia)) as [n2 H2].
+    destruct (cord_complete c Cc (yield l)) as [n1 H1].
+    exists (n1 + n2). intros n Hn. unfold yield. cbn [flat_map]. fold (yield l).
+    destruct (y_cord_cons c) as [t0 [r0 E]].
+    assert (Eq : y_cord c ++ yield l = t0 :: (r0 ++ yield l)) by (rewrite E; reflexivity).
+    rewrite Eq. cbn [p_program]. rewrite <- Eq. rewrite H1 by lia. rewrite H2 by lia. reflexivity.
+Qed.
+
+(* UNAMBIGUOUS: a token sequence is the yield of at most one canonical derivation tree *)
+Theorem canonical_unique p1 p2 : canonical p1 = true -> canonical p2 = true -> yield p1 = yield p2 -> p1 = p2.
+Proof.
+  intros C1 C2 E.
+  pose proof (program_complete p1 C1 (length p1 + length p2) ltac:(lia)) as H1.
+  pose proof (program_complete p2 C2 (length p1 + length p2) ltac:(lia)) as H2.
+  rewrite E in H1. exact (ev_unique _ _ _ H1 H2).
+Qed.
